@@ -385,6 +385,25 @@ def op11(ctx):
     yield Ob(key_of("C09-Op11", b.path, "sites"), bool(sl) and n_ret >= 1, "%d set_len call(s), %d return(s) that can report a created file" % (len(sl), n_ret), b.loc())
 
 
+@rule("C09-Op12", "C09", 4, "the read-only open hands Options::open a flag set that cannot create, cut or extend the file whatever the caller's options say: create, "
+      "create_new, append and truncate are false at the call (an Options value reused from the creating call, with truncate(true), would otherwise empty the "
+      "file before the open is refused)", configs=MEMCFG, also=("C05", "C06"))
+def op12(ctx):
+    b = ctx.facts.one(r"^memory::Memory::<R, PR, H>::map_in$")
+    ev, res = ctx.eval(b, no_inline=(r"\{closure", r"Options>::open$|Options::open$"))
+    opens = [e for e in res.log if e["kind"] == "call" and not e["chain"] and re.search(r"Options>::open$|Options::open$", e["callee"])]
+    if len(opens) != 1:
+        yield Ob(key_of("C09-Op12", b.path, "open-call"), False, "expected one Options::open call, found %d" % len(opens), b.loc())
+        return
+    # the options value at the call: what the chain of builder calls in front of it produced
+    chain = [e for e in res.log if e["kind"] == "call" and not e["chain"] and re.search(r"Options>?::with_\w+$", e["callee"]) and e["seq"] < opens[0]["seq"]]
+    o = chain[-1]["result"] if chain else ev._deref_val(opens[0]["args"][0])
+    for fld in ("create", "create_new", "append", "truncate"):
+        v = struct_get(o, fld) if tag(o) == "struct" else None
+        ok = v is not None and is_const(v) and as_lin(v).c == 0
+        yield Ob(key_of("C09-Op12", b.path, "flag-" + fld), ok, "Options::open is called with %s = %s" % (fld, short(v, 40) if v is not None else "?"), ctx.loc(opens[0]))
+
+
 SAFE_MUTATOR_EXEMPT = {
     # effects that are not writes into the arena's backing memory
 }
